@@ -573,7 +573,12 @@ func ruleGroupLeaveAndDeleteCoverEveryone(c *eng.Ctx) {
 		walks := eng.CallsIn(fn, "server.rangeStreamsOrdered")
 		ok := len(walks) >= 1
 		var w *eng.Witness
-		if ok {
+		if sw := resolveStreamWalk(c, "server.(*consumerGroup).removeConsumer", p.Field("server", "consumerGroup", "subscribers"), false); !ok && sw != nil && sw.hdr != nil {
+			// the walk is a loop in removeConsumer itself: every path passes its header
+			q := &eng.PathQuery{Fn: fn, FromEntry: true, Target: isRet, CutInstr: func(x ssa.Instruction) bool { return x.Block() == sw.hdr }}
+			w = q.Find()
+			ok = w == nil
+		} else if ok {
 			q := &eng.PathQuery{Fn: fn, FromEntry: true, Target: func(x ssa.Instruction) bool { _, isR := x.(*ssa.Return); return isR },
 				CutInstr: func(x ssa.Instruction) bool { return x == walks[0].(ssa.Instruction) }}
 			w = q.Find()
